@@ -387,5 +387,127 @@ def rule_t4(repo):
     return res
 
 
+# evaluators of the source type of a coercion: coercion constant -> (source kind, accepted evaluator functions)
+COERCIONS = {
+    'of_nat': ('nat', {('data/nat.py', 'nat_eval'), ('data/nat.py', 'convert_to_poly')}),
+    'of_int': ('int', {('data/integer.py', 'int_eval'), ('data/integer.py', 'convert_to_poly')}),
+}
+
+
+def _all_funcs_of(func):
+    out = [func]
+    for g in func.nested.values():
+        out.extend(_all_funcs_of(g))
+    return out
+
+
+def rule_t5(repo):
+    res = RuleResult('C05.T5', 'inside an evaluator, the argument of a coercion (of_nat, of_int) is evaluated by the evaluator of its own type', floor=5)
+    for (rel, qual), kind in sorted(EVALUATORS.items()):
+        top = repo.opt_func(rel, qual)
+        need(top is not None, 'evaluator %s :: %s not found' % (rel, qual))
+        for f in _all_funcs_of(top):
+            cfg = cfg_of(f.node)
+            for t in cfg.test_nodes():
+                e = t.ast
+                if not (isinstance(e, ast.Call) and call_attr(e) == 'is_comb' and e.args and isinstance(e.args[0], ast.Constant)
+                        and e.args[0].value in COERCIONS and isinstance(e.func, ast.Attribute)):
+                    continue
+                recv = src(e.func.value)
+                coercion = e.args[0].value
+                src_kind, accepted = COERCIONS[coercion]
+                if src_kind == kind:
+                    continue
+                # the first returns reachable from the true edge belong to this branch
+                starts = [b for b, l in t.succ if l == 'true']
+                other_tests = [n for n in cfg.test_nodes() if n is not t and isinstance(n.ast, ast.Call) and
+                               isinstance(n.ast.func, ast.Attribute) and src(n.ast.func.value) == recv and
+                               (call_attr(n.ast) or '').startswith('is_')]
+                reach = cfg.reach_from(starts, skip_nodes=other_tests)
+                rets = [r for r in cfg.return_nodes() if r.id in reach and r.ast.value is not None]
+                bad = []
+                for r in rets:
+                    good = False
+                    for c in ast.walk(r.ast.value):
+                        if isinstance(c, ast.Call) and c.args and src(c.args[0]) == recv + '.arg':
+                            for tgt in repo.resolve_call(f, c):
+                                if (tgt.module.rel, tgt.qualname) in accepted:
+                                    good = True
+                    # of_nat of a numeral may also be read off directly
+                    if not good and any(isinstance(c, ast.Call) and call_attr(c) in ('dest_number', 'dest_binary') for c in ast.walk(r.ast.value)):
+                        good = True
+                    if not good:
+                        bad.append('line %d: %s' % (r.lineno, src(r.ast.value, 50)))
+                res.add('%s :: %s :: coercion(%s)' % (rel, f.qualname, coercion), bool(rets) and not bad,
+                        'argument of %s evaluated with the %s evaluator' % (coercion, src_kind) if rets and not bad else
+                        'the argument of %s has type %s but is evaluated with %s arithmetic (%s): truncated subtraction under the '
+                        'coercion is computed as exact subtraction' % (coercion, src_kind, kind, '; '.join(bad) or 'no return found'),
+                        '%s:%d' % (rel, t.lineno))
+    return res
+
+
+# shape predicate -> Python comparison that must decide it
+SHAPE_OP = {'is_less': ast.Lt, 'is_less_eq': ast.LtE, 'is_greater': ast.Gt, 'is_greater_eq': ast.GtE, 'is_equals': ast.Eq}
+OP_TEXT = {ast.Lt: '<', ast.LtE: '<=', ast.Gt: '>', ast.GtE: '>=', ast.Eq: '==', ast.NotEq: '!='}
+
+
+def rule_t6(repo):
+    res = RuleResult('C05.T6', 'the comparison that decides a goal of shape `a OP b` is the Python comparison OP on the evaluated sides', floor=20)
+    seen = set()
+    funcs = []
+    for mi in trusted_macros(repo):
+        for f in closure(repo, mi.eval, depth=3):
+            if id(f) not in seen and f.module.rel.startswith(('data/', 'integral/inequality.py')):
+                seen.add(id(f))
+                funcs.append(f)
+    for f in funcs:
+        cfg = cfg_of(f.node)
+        flow = flow_of(f.node)
+        shape_tests = [n for n in cfg.test_nodes() if isinstance(n.ast, ast.Call) and call_attr(n.ast) in SHAPE_OP and
+                       isinstance(n.ast.func, ast.Attribute) and not n.ast.args]
+        if len(shape_tests) < 3:
+            continue       # not a dispatch over comparison shapes
+        for t in shape_tests:
+            recv = src(t.ast.func.value)
+            shape = call_attr(t.ast)
+            want = SHAPE_OP[shape]
+            starts = [b for b, l in t.succ if l == 'true']
+            others = [n for n in shape_tests if n is not t and src(n.ast.func.value) == recv]
+            reach = cfg.reach_from(starts, skip_nodes=others)
+            # comparisons between the two evaluated sides in this branch: in tests, returns, asserts
+            found = []
+            for n in cfg.nodes:
+                if n.id not in reach:
+                    continue
+                for h in cfg.headers(n):
+                    for c in ast.walk(h):
+                        cp = compare_parts(c) if isinstance(c, ast.Compare) else None
+                        if not cp or cp[0] not in OP_TEXT:
+                            continue
+                        # both sides are evaluated values (calls, or locals defined by calls), not types / lengths
+                        def evaluated(x):
+                            if isinstance(x, ast.Call):
+                                return call_attr(x) not in ('get_type', 'len', 'is_zero')
+                            if isinstance(x, ast.Name) and flow.is_local(x.id):
+                                return any(isinstance(r, (ast.Call, ast.Tuple)) for _k, r in flow.defs[x.id])
+                            return False
+                        if evaluated(cp[1]) and evaluated(cp[2]):
+                            found.append((cp[0], c))
+            if not found:
+                continue
+            if shape == 'is_equals' and _negated_goal(recv):
+                want = ast.NotEq        # the goal is ~(a = b)
+            bad = [c for op, c in found if op is not want]
+            res.add('%s :: %s :: %s(%s)' % (f.module.rel, f.qualname, shape, recv), not bad,
+                    'decided by `%s`' % OP_TEXT[want] if not bad else
+                    'a goal of shape %s is decided by `%s`' % (shape, '; '.join(src(c) for c in bad)), '%s:%d' % (f.module.rel, t.lineno))
+    return res
+
+
+def _negated_goal(recv):
+    # `t.arg.is_equals()` under `t.is_not()`: the goal is a disequality, decided by !=
+    return recv.endswith('.arg')
+
+
 def rules(repo):
-    return [rule_t1(repo), rule_t2(repo), rule_t3(repo), rule_t4(repo)]
+    return [rule_t1(repo), rule_t2(repo), rule_t3(repo), rule_t4(repo), rule_t5(repo), rule_t6(repo)]
